@@ -463,15 +463,15 @@ func decimalNs(s string) (int64, bool) {
 
 // Intent is what a line means for one signal, by construction.
 type Intent struct {
-	Match bool
-	TsCap string
+	Match  bool
+	TsCap  string
 	ValCap string
-	TsOK  bool
-	Now   bool
-	Ns    int64
-	ValOK bool
-	Num   *big.Rat
-	Text  string
+	TsOK   bool
+	Now    bool
+	Ns     int64
+	ValOK  bool
+	Num    *big.Rat
+	Text   string
 }
 
 func valConforms(re, v string) bool {
